@@ -41,7 +41,7 @@ CLAIMED = {
         "level": "exploration",
         "text": "Seeded search over tables x configs x front-end sets x generator interleavings (abandon / restart / re-run / two configs on one stream object) x hash seeds x dirty-allocator patterns; each yielded ContextResult is compared with a reference window model, a direct call of the real test function on plain arrays, and the arguments a recording probe function received; replicas are compared pairwise. Sampling, not proof.",
         "ref": "DESIGN.md section 3 (C05)",
-        "note": "Trusts the reference window model (starting <= t < ending) and the direct call as the meaning of 'calling the test directly'; naive whole-second strictly increasing times; one known finding (XarrayStream ignores windows when time is not a coordinate) is listed in known_findings.jsonl.",
+        "note": "Trusts the reference window model (starting <= t < ending) and the direct call as the meaning of 'calling the test directly'; naive whole-second strictly increasing times.",
         "technique": "deterministic simulation: replicas of one run under a seeded cooperative scheduler (interleave/abandon/restart), seeded hash seed and dirty allocator, probe QC function, reference-model oracle",
     },
     "C18": {
